@@ -197,6 +197,23 @@ theorem compactB_wfB (file : Bytes) (h : compactB file = true) : wfB file = true
   simp only [wfB, hrun, decide_eq_true_eq]
   exact hc.wf _ _ _
 
+/-- the header and table of a well-formed layout parse whatever follows them -/
+theorem decTable_prefix (l : Lay) (ok : l.Ok) (rest : Bytes) :
+    ∃ h : Header, h.nEntries = (l.n : Int) ∧ (∀ r, Header.dec.run (l.hdr ++ r) = some (h, r)) ∧
+      decTable.run ((l.hdr ++ l.table.flatMap Entry.enc) ++ rest) = some ((h, l.table), rest) := by
+  obtain ⟨h, hn, hp⟩ := ok.hdr_parse
+  refine ⟨h, hn, hp, ?_⟩
+  have hlen : l.table.length = l.n := by simp [Lay.table, ok.count]
+  unfold decTable
+  simp only [D.bind_eq, List.append_assoc]
+  rw [D.bind_run_of _ _ _ _ _ (hp _)]
+  have hneg : ¬ (h.nEntries < 0) := by rw [hn]; omega
+  simp only [hneg, if_false]
+  have : h.nEntries.toNat = l.table.length := by rw [hn, hlen]; simp
+  rw [this]
+  rw [D.bind_run_of _ _ _ _ _ (D.rep_run Entry.dec Entry.enc l.table _ (fun e he r => Entry.dec_enc e (ok.valid e he) r))]
+  rfl
+
 theorem decTable_image_append (l : Lay) (ok : l.Ok) (junk : Bytes) :
     ∃ h : Header, h.nEntries = (l.n : Int) ∧
       decTable.run (l.image ++ junk) = some ((h, l.table), dataOf l.bs ++ junk) := by
